@@ -21,7 +21,7 @@ CLAIMED = {
                 note="'to the tolerance of the integration' and the second-order remainder are not decided; solve_ivp flow contract assumed; X-point cells excluded",
                 tech=TECH),
     "C05": dict(text="real calcHy and calcPoloidalDistance on open and periodic region chains with symbolic contour distances; real FineContour.calcDistance (chord sum) and getDistance (interpolation between bracketing nodes); z3 decides each arc-length relation, positivity, monotonicity, continuity across joins, totals; reversal of contours and total distances",
-                note="contour distances are symbolic strictly increasing arrays (that they are the true arc length, equaliseSpacing convergence and the quadratic convergence in Nfine are not decided); chain-internal regions start at distance 0; nx=1, ny=2",
+                note="contour distances are symbolic strictly increasing arrays (that they are the true arc length, equaliseSpacing convergence and the quadratic convergence in Nfine are not decided); contour distance offsets arbitrary (also for chain-internal regions); the y-group order is decided on the real constructor; nx=1, ny=2",
                 tech=TECH),
     "C06": dict(text="real calcZShift on open and periodic region chains with quadrature/interpolation contract stubs and the real integrand closure; real DDX (with dx from the real geometry1) on a radial stack in all connection cases; real geometry2/calcMetric wiring; z3 decides zero at chain start, continuity across joins, ShiftAngle, integrand = Bt/(R|Bp|), DDX stencils and finiteness",
                 note="cumulative_trapezoid and interp1d replaced by contracts (T[0]=0, exact at nodes); 2-region chains, nx<=2, ny=1; trapezoid accuracy and 2*pi*q not decided",
@@ -30,7 +30,7 @@ CLAIMED = {
                 note="RectBivariateSpline contract (table of derivatives); Bp^2=|grad psi|^2/R^2, Bt=fpol/R assumed at the point; x-y-derivative formulation and smoothing not decided",
                 tech=TECH + "; forward-mode AD (jets), exact rational-function normal form"),
     "C08": dict(text="real topology descriptors, Mesh/BoutMesh index code and the AST slice of writeGridfile run with symbolic integer sizes; z3 (LIA) decides tiling, connection symmetry, BOUT++ decoding of ixseps/jyseps == hypnotoad adjacency and index ordering for all sizes >= 1; circular core/limiter and isolated X-point (TORPEX) topologies; chi NaN mask; theta zero/continuity/2pi from the index expressions of the source; getRZBoundary and the global index map of the output arrays",
-                note="numerics (findLegs, coreRegionToRegion, segmentsWithPsivals) stubbed; BOUT++ reference semantics written in the harness; guards enumerated 0..4; coordinates on shared edges not decided",
+                note="numerics (findLegs, coreRegionToRegion, segmentsWithPsivals) stubbed; BOUT++ reference semantics written in the harness; guards enumerated 0..4; coordinates on shared edges not decided beyond: y-edges after getRZBoundary, one global x index and one surface direction per shared contour (non-orthogonal grids: a known finding), X-point markers, y-group order",
                 tech=TECH + "; QF_LIA over unbounded sizes"),
     "C09": dict(text="real getSmoothMonotonicGridFunc (linear, cubic, erf, trig cases) and make1dGrid on symbolic reals, derivatives by jets through the real closures; z3 decides end values, end gradients, zero second derivative at separatrix ends, monotonicity on [0,n] and resolution nesting for all n>=1 and all admissible parameters; descriptor hands the same dpsidi_sep to both sides of each separatrix; psi-decreasing descriptors; segmentsWithPsivals wiring; core/SOL/PFR limits from psi_*/psinorm_* options",
                 note="brentq replaced by a root contract; exp/erf/sin/cos uninterpreted with sound axioms; Si/Ci case only b>0; erf nesting not decided; reals not doubles",
